@@ -863,36 +863,54 @@ theorem C06_finished_roundtrip (k : Finished) (wf : WFFin k) (rest : Bytes) :
       subst e1 e2
       rfl
 
+/-- a well-formed list of filestore responses compares equal to itself (no element raises) -/
+private theorem responsesBeqAux_refl : ∀ l : List FileStoreResponseTlv, WFResponses l → responsesBeqAux l l = .ok true := by
+  intro l
+  induction l with
+  | nil => intro _; rfl
+  | cons r l ih =>
+    intro hl
+    have hr := (resp_pack r (hl r List.mem_cons_self)).1
+    have hv : r.value = .ok (C08.Spec.fsResponse r).tail.tail := by
+      unfold FileStoreResponseTlv.pack at hr
+      unfold FileStoreResponseTlv.value
+      cases hb : r.buildTlv with
+      | error e => rw [hb] at hr; cases hr
+      | ok t =>
+        rw [hb, bind_ok] at hr
+        obtain ⟨_, _, he⟩ := CfdpTlv.pack_ok t _ hr
+        rw [he]
+        rfl
+    have hl' : WFResponses l := fun q hq => hl q (List.mem_cons_of_mem _ hq)
+    simp only [responsesBeqAux, AnyTlv.beq, AnyTlv.tlvType, AnyTlv.value, hv, ne_eq, not_true_eq_false,
+      ↓reduceIte, bind, Except.bind, pure, Except.pure, BEq.rfl, ih hl']
+
 /-- the decoded PDU **compares equal** to the original (both ways) and **re-packs to the same
     octets** (`==` needs a fault location whose entity ID has a width the library can compare) -/
 theorem C06_finished_eq_repack (k : Finished) (wf : WFFin k) (hw : EqWidth k.faultLoc) (rest : Bytes) :
     ∃ k', (k.pack >>= fun b => Finished.unpack (b ++ rest)) = .ok k' ∧ k' = k ∧
       k.beq k' = .ok true ∧ k'.beq k = .ok true ∧ k'.pack = k.pack := by
-  have hresp : ∀ l : List FileStoreResponseTlv, WFResponses l → responsesBeqAux l l = .ok true := by
-    intro l
-    induction l with
-    | nil => intro _; rfl
-    | cons r l ih =>
-      intro hl
-      have hr := (resp_pack r (hl r List.mem_cons_self)).1
-      have hv : r.value = .ok (C08.Spec.fsResponse r).tail.tail := by
-        unfold FileStoreResponseTlv.pack at hr
-        unfold FileStoreResponseTlv.value
-        cases hb : r.buildTlv with
-        | error e => rw [hb] at hr; cases hr
-        | ok t =>
-          rw [hb, bind_ok] at hr
-          obtain ⟨_, _, he⟩ := CfdpTlv.pack_ok t _ hr
-          rw [he]
-          rfl
-      have hl' : WFResponses l := fun q hq => hl q (List.mem_cons_of_mem _ hq)
-      simp only [responsesBeqAux, AnyTlv.beq, AnyTlv.tlvType, AnyTlv.value, hv, ne_eq, not_true_eq_false,
-        ↓reduceIte, bind, Except.bind, pure, Except.pure, BEq.rfl, ih hl']
   refine ⟨k, ?_, rfl, ?_, ?_, rfl⟩
   · rw [C06_finished_pack_exact k wf]; exact C06_finished_roundtrip k wf rest
   all_goals
-    simp [Finished.beq, responsesBeq, hresp _ wf.2.2.2.2.1, optEntityBeq_refl _ hw, beq_refl, bind, Except.bind,
-      pure, Except.pure]
+    simp [Finished.beq, responsesBeq, responsesBeqAux_refl _ wf.2.2.2.2.1, optEntityBeq_refl _ hw, beq_refl, bind,
+      Except.bind, pure, Except.pure]
+
+/-- counterpart of `C06_eof_eq_other_width`: with a fault location whose entity ID has any other
+    width (`WFFault` allows 0..255 octets) **`==` raises `ValueError`** — on the object itself and on
+    the decoded PDU against the original, in both directions (documented class; nothing is compared
+    wrongly, but the statement's "compares equal" does not hold there; the structural round trip
+    `C06_finished_roundtrip` and the identical re-pack do) -/
+theorem C06_finished_eq_other_width (k : Finished) (wf : WFFin k) (t : EntityIdTlv) (hf : k.faultLoc = some t)
+    (hw : t.value.length ∉ [1, 2, 4, 8]) (rest : Bytes) :
+    k.beq k = .error .value ∧
+    ∃ k', (k.pack >>= fun b => Finished.unpack (b ++ rest)) = .ok k' ∧
+      k.beq k' = .error .value ∧ k'.beq k = .error .value ∧ k'.pack = k.pack := by
+  have h : k.beq k = .error .value := by
+    simp [Finished.beq, responsesBeq, responsesBeqAux_refl _ wf.2.2.2.2.1, hf, Eof.optEntityBeq, EntityIdTlv.beq,
+      ubfValue, hw, bind, Except.bind, pure, Except.pure]
+  refine ⟨h, k, ?_, h, h, rfl⟩
+  rw [C06_finished_pack_exact k wf]; exact C06_finished_roundtrip k wf rest
 
 /-- **the three documented setters keep the length consistent**: afterwards the PDU is the one a
     fresh constructor call with the new value gives (or both are refused as too long) -/
@@ -958,6 +976,12 @@ example : C05.Spec.octets exFin.fd.header ++ [u8 exFin.fd.code] ++ Spec.finParam
        1, 8, 0x21, 2, 0xC3, 0xA4, 1, 0x62, 1, 9,
        6, 4, 1, 2, 3, 4] := by decide
 example : WFFin ⟨⟨⟨0, 0, 2, ⟨⟨1, 0⟩, ⟨1, 0⟩, ⟨1, 0⟩, 0, 0, 0, 1, 0⟩⟩, 5⟩, 0, 0, 2, [], none⟩ := by decide
+-- a well-formed Finished PDU whose fault location has a 3-octet entity ID: `==` raises (C06_finished_eq_other_width)
+example : WFFin ⟨⟨⟨0, 0, 7, ⟨⟨1, 0⟩, ⟨1, 0⟩, ⟨1, 0⟩, 0, 0, 0, 1, 0⟩⟩, 5⟩, 4, 0, 2, [], some ⟨⟨6, [7, 8, 9]⟩⟩⟩ ∧
+    ¬ EqWidth (some ⟨⟨6, [7, 8, 9]⟩⟩) ∧
+    Finished.beq ⟨⟨⟨0, 0, 7, ⟨⟨1, 0⟩, ⟨1, 0⟩, ⟨1, 0⟩, 0, 0, 0, 1, 0⟩⟩, 5⟩, 4, 0, 2, [], some ⟨⟨6, [7, 8, 9]⟩⟩⟩
+      ⟨⟨⟨0, 0, 7, ⟨⟨1, 0⟩, ⟨1, 0⟩, ⟨1, 0⟩, 0, 0, 0, 1, 0⟩⟩, 5⟩, 4, 0, 2, [], some ⟨⟨6, [7, 8, 9]⟩⟩⟩ = .error .value := by
+  decide
 -- a fault location with "no error" is outside the exact-layout domain
 example : ¬ WFFin ⟨⟨⟨0, 0, 2, ⟨⟨1, 0⟩, ⟨1, 0⟩, ⟨1, 0⟩, 0, 0, 0, 1, 0⟩⟩, 5⟩, 0, 0, 2, [], some ⟨⟨6, [1]⟩⟩⟩ := by decide
 
